@@ -606,6 +606,9 @@ def step_observe(h, tok, p):
 
 # ----------------------------------------------------------------------------- the library-only oracle, run after every step
 
+_EXPLOIT_ROT = [0]
+
+
 def exploit(h, kind, shared):
     """a Slice/Builder shares a container with another object: show through library calls only that this breaks isolation"""
     ctx = h.ctx
@@ -617,13 +620,31 @@ def exploit(h, kind, shared):
             before = {i: O.snapshot(P[i]) for i in others}
             call = None
             try:
-                if which == 'bits' and tags[o] == 's' and len(P[o].bits):
+                if which == 'bits' and tags[o] == 's' and len(O._raw(P[o], 'bits')):
                     P[o].skip_bits(1)
                     call = f'pool[{o}] (Slice) .skip_bits(1)'
-                elif which == 'bits' and tags[o] == 'b' and len(P[o].bits) < 1023:
-                    P[o].store_bit(1)
-                    call = f'pool[{o}] (Builder) .store_bit(1)'
-                elif which == 'refs' and tags[o] == 'b' and len(P[o].refs) < 4 and some_cell is not None:
+                elif which == 'bits' and tags[o] == 'b' and len(O._raw(P[o], 'bits')) < 1023:      # (not through the property: no side effect before the write)
+                    # every kind of bit write, the FIRST one rotating from history to history (a copy-on-write scheme may
+                    # unshare on some store paths and forget others; the first write after the sharing began is the one that tells)
+                    b = P[o]
+                    writes = [('store_bit(1)', lambda: b.store_bit(1)), ("store_string('z')", lambda: b.store_string('z')),
+                              ('store_uint(1, 1)', lambda: b.store_uint(1, 1)), ("store_bits('1')", lambda: b.store_bits('1')),
+                              ("store_bytes(b'\\xa5')", lambda: b.store_bytes(b'\xa5')), ('store_int(-1, 1)', lambda: b.store_int(-1, 1)),
+                              ('store_coins(1)', lambda: b.store_coins(1)), ('store_address(None)', lambda: b.store_address(None)),
+                              ('store_bool(True)', lambda: b.store_bool(True)), ('store_var_uint(1, 4)', lambda: b.store_var_uint(1, 4)),
+                              ("store_snake_string('y')", lambda: b.store_snake_string('y')), ('store_maybe_ref(None)', lambda: b.store_maybe_ref(None)),
+                              ('store_dict(None)', lambda: b.store_dict(None)), ('store_bit_int(1)', lambda: b.store_bit_int(1))]
+                    _EXPLOIT_ROT[0] += 1
+                    k0 = _EXPLOIT_ROT[0] % len(writes)
+                    for nm, f in writes[k0:] + writes[:k0]:
+                        try:
+                            f()
+                        except Exception:
+                            continue
+                        call = (call + ' ; ' if call else f'pool[{o}] (Builder) ') + '.' + nm
+                        if any(O.snapshot(P[i]) != before[i] for i in others):
+                            break
+                elif which == 'refs' and tags[o] == 'b' and len(O._raw(P[o], 'refs')) < 4 and some_cell is not None:
                     P[o].store_ref(some_cell)
                     call = f'pool[{o}] (Builder) .store_ref(pool[{h.pool.find(some_cell)}])'
             except Exception:
